@@ -194,3 +194,56 @@ func Remove(name string) error {
 	}
 	return &fs.PathError{Op: "remove", Path: name, Err: syscall.ENOENT}
 }
+
+// ---------------------------------------------------------------------------
+// process identity and unseeded randomness: constant per scenario, so that a
+// tree that lets them leak into its output gives a replayable difference
+// between two scenarios instead of an unrepeatable one.
+
+func Getpid() int  { return 1000 + int(step.Seed%30000) }
+func Getppid() int { return 1 }
+
+func Hostname() (string, error) { return "simhost", nil }
+
+var unseeded *rng
+
+func rnd() *rng {
+	if unseeded == nil {
+		unseeded = newStream("math/rand")
+	}
+	return unseeded
+}
+
+func RandIntn(n int) int {
+	if n <= 0 {
+		panic("invalid argument to Intn")
+	}
+	return rnd().intn(n)
+}
+func RandInt() int         { return int(rnd().next() >> 1) }
+func RandInt63() int64     { return int64(rnd().next() >> 1) }
+func RandInt31() int32     { return int32(rnd().next() >> 33) }
+func RandUint32() uint32   { return uint32(rnd().next() >> 32) }
+func RandUint64() uint64   { return rnd().next() }
+func RandFloat64() float64 { return float64(rnd().next()>>11) / (1 << 53) }
+func RandInt63n(n int64) int64 {
+	if n <= 0 {
+		panic("invalid argument to Int63n")
+	}
+	return int64(rnd().next()>>1) % n
+}
+func RandInt31n(n int32) int32 { return int32(RandInt63n(int64(n))) }
+func RandPerm(n int) []int {
+	p := make([]int, n)
+	for i := range p {
+		p[i] = i
+	}
+	RandShuffle(n, func(i, j int) { p[i], p[j] = p[j], p[i] })
+	return p
+}
+func RandShuffle(n int, swap func(i, j int)) {
+	for i := n - 1; i > 0; i-- {
+		swap(i, rnd().intn(i+1))
+	}
+}
+func RandSeed(seed int64) {}
